@@ -225,6 +225,7 @@ type sysRun struct {
 	lastCallId    string // id of the scheduler's latest MarkAsDispatched / GetById
 	lastGetState  string // state of the task the latest GetById returned
 	announcedId   string // id of the task the latest Step announced (NextTask)
+	hotId         string // the task the scheduler is holding on to (announced, or of a failed dispatch not yet retried)
 	inRetry       bool
 
 	// exhaustive fault placement: the k-th faultable call of the scheduler (before quiescence) gets the planned fault
@@ -557,7 +558,7 @@ func (s *sysRun) userOp() {
 		s.stats["user:add"]++
 		s.log("LUser (HAdd false " + nowT + " " + cq.Str(fresh) + " " + cq.UParam(p) + ") " + taskRes(t, err))
 	case x < 8:
-		id := s.known[s.r.Intn(len(s.known))]
+		id := s.pickId()
 		var p def.TaskUpdateParam
 		if s.r.Intn(4) != 0 {
 			offs := []time.Duration{0, time.Second, 5 * time.Second, 10 * time.Second, 30 * time.Second, -time.Second}
@@ -570,11 +571,19 @@ func (s *sysRun) userOp() {
 		s.stats["user:update"]++
 		s.log("LUser (HUpdate false " + nowT + " " + cq.Str(id) + " " + cq.UParam(p) + ") " + cq.Err(err, isCtxErr))
 	default:
-		id := s.known[s.r.Intn(len(s.known))]
+		id := s.pickId()
 		err := s.obs.Cancel(ctx, id)
 		s.stats["user:cancel"]++
 		s.log("LUser (HCancel false " + nowT + " " + cq.Str(id) + ") " + cq.Err(err, isCtxErr))
 	}
+}
+
+// pickId: the target of an update / cancellation: often the very task the scheduler is holding on to
+func (s *sysRun) pickId() string {
+	if s.hotId != "" && s.r.Intn(3) == 0 {
+		return s.hotId
+	}
+	return s.known[s.r.Intn(len(s.known))]
 }
 
 func (s *sysRun) advance(far bool) {
@@ -729,11 +738,19 @@ func (s *sysRun) progress() {
 		if out.st.State() == scheduler.NextTask && out.st.Err() == nil {
 			_ = out.st.Match(scheduler.StepResultHandler{
 				TimerUpdateError: func(error) error { return nil }, AwaitingNext: func(error) error { return nil },
-				NextTask: func(t def.Task, _ error) error { s.announcedId = t.Id; return nil }, DispatchErr: func(def.Task, error) error { return nil },
+				NextTask: func(t def.Task, _ error) error { s.announcedId = t.Id; s.hotId = t.Id; return nil }, DispatchErr: func(def.Task, error) error { return nil },
+				Dispatched: func(string) error { return nil }, TaskDone: func(string, error, error) error { return nil },
+			})
+		}
+		if out.st.State() == scheduler.DispatchErr {
+			_ = out.st.Match(scheduler.StepResultHandler{
+				TimerUpdateError: func(error) error { return nil }, AwaitingNext: func(error) error { return nil },
+				NextTask: func(def.Task, error) error { return nil }, DispatchErr: func(t def.Task, _ error) error { s.hotId = t.Id; return nil },
 				Dispatched: func(string) error { return nil }, TaskDone: func(string, error, error) error { return nil },
 			})
 		}
 		if id, ok := dispatchedId(out.st); ok {
+			s.hotId = ""
 			s.stepCancel[id] = s.curCancel
 			s.accepted[id] = true
 			if s.vmode {
